@@ -6,6 +6,8 @@ import ThriftVerif.Facts.ExpectWire
 #print axioms ThriftVerif.Properties.C03.lazy_forced_decode_total
 #print axioms ThriftVerif.Properties.C03.stream_canonical
 #print axioms ThriftVerif.Properties.C03.lazy_canonical
+#print axioms ThriftVerif.Properties.C03.decode_accepts_exactly_encodings
+#print axioms ThriftVerif.Properties.C03.decode_ignores_what_follows
 #print axioms ThriftVerif.Properties.C03.readers_agree
 #print axioms ThriftVerif.Properties.C03.skip_of_decode
 #print axioms ThriftVerif.Properties.C03.lazy_decode_ends_where_skip_ends
